@@ -7,6 +7,7 @@ requests and batches), a corpus, and the real JsonRpcHandler.post / WebSocketHan
 .on_message driven on stubbed transports.
 """
 
+import inspect
 import json
 import math
 from pathlib import Path
@@ -75,6 +76,18 @@ class Rec:
         n = len(self._log)
         self._log.append(("m", self._label, name))
         return behave(name, n, a, k)
+
+    # private members on which merely READING the name runs code: they must not even be touched
+    @property
+    def _secret(self):
+        self._log.append(("m", self._label, "_secret:get"))
+        return lambda *a, **k: "secret"
+
+    @property
+    def _boom(self):
+        self._log.append(("m", self._label, "_boom:get"))
+        msg = "the getter of a private member ran"
+        raise RuntimeError(msg)
 
     def pub(*a, **k):
         return a[0]._do("pub", a[1:], k)
@@ -185,8 +198,9 @@ def g_table(idx, tbl=None):
         attrs = []
         for a in dir(obj):
             try:
-                val = getattr(obj, a)
-            except AttributeError:
+                # private names are never looked up by the model; do not run their getters here
+                val = inspect.getattr_static(obj, a, None) if a.startswith("_") else getattr(obj, a)
+            except Exception:  # noqa: BLE001
                 continue
             attrs.append(f"({g_str(a)}, {'ACallable' if callable(val) else 'APlain'})")
         items.append(f"({g_str(mount)}, mkObj {'true' if callable(obj) else 'false'} {g_list(attrs)})")
@@ -518,7 +532,7 @@ def monitors(chk, tbl_idx, data, parsed_ok, parsed, outcome, log, case):
 SEGMENTS = ["child", "buddy", "helper", "items", "o", "core", "x", "f", "a", "b", "g", "te", "uns", "_p", "n", "pub", "count", "nargs", "te_bad",
             "oth", "oth_bad", "_priv", "__class__", "attr", "_hidden", "nope", "", "__call__", "__init__",
             "pub ", "Pub", "value", "describe", "get_version", "playback", "tracklist", "_do", "_log", "é", "\U0001F600"]
-GOOD_PATHS = ["o.pub", "o.count", "o.nargs", "o.te", "o.oth", "o.uns", "o.te_bad", "o.oth_bad", "core.x.pub",
+GOOD_PATHS = ["o._secret", "o._boom", "core.x._secret", "core.x._boom", "core.playback._secret", "o.child._secret", "o.pub", "o.count", "o.nargs", "o.te", "o.oth", "o.uns", "o.te_bad", "o.oth_bad", "core.x.pub",
               "core.x.count", "f", "a.b", "g.te", "g.uns", "g.count", "_p", "o.attr", "o._priv", "o.nope", "n.value",
               "core.pub", "core.playback.pub", "core.get_version", "core.describe", "o.pub.x.pub", "f.x",
               "o.pub.__call__", "f.__call__", "o.__init__", "o._do", "x.pub", "core.x._priv"]
@@ -967,6 +981,10 @@ def handler_stage(chk, jsonrpc):
         else:
             cases.append((rng.choice([0, 1, 3]), enc(gen_structured(rng)[0]).encode("utf-8")))
     rows = []
+    hlog = logging.getLogger("mopidy.http.handlers")
+    hlog.addHandler(logging.NullHandler())
+    saved_propagate = hlog.propagate
+    hlog.propagate = False
     for tbl_idx, data in cases:
         try:
             text = data.decode("utf-8")
@@ -974,9 +992,32 @@ def handler_stage(chk, jsonrpc):
         except UnicodeDecodeError:
             text, utf8_ok = None, False
         parsed_ok, parsed = parse_oracle(data)
-        runs = [("http", run_http(handlers, jsonrpc, tbl_idx, data)), ("ws-binary", run_ws(handlers, jsonrpc, tbl_idx, data))]
-        if text is not None:
-            runs.append(("ws-text", run_ws(handlers, jsonrpc, tbl_idx, text)))
+        runs = []
+        # the log level is an extra dimension: the answer must not depend on it
+        for level_name, level in (("quiet", logging.CRITICAL), ("debug", logging.DEBUG)):
+            hlog.setLevel(level)
+            logging.getLogger("mopidy").setLevel(level)
+            try:
+                per_level = [("http", run_http(handlers, jsonrpc, tbl_idx, data)), ("ws-binary", run_ws(handlers, jsonrpc, tbl_idx, data))]
+                if text is not None:
+                    per_level.append(("ws-text", run_ws(handlers, jsonrpc, tbl_idx, text)))
+            except Exception as exc:  # noqa: BLE001
+                chk.monitor_failure("no_exception", {"exc": "transport", "cause": "escaped_handler", "log_level": level_name},
+                                    f"{type(exc).__name__} left the transport handler (log level {level_name})",
+                                    {"table": tbl_idx, "hex": data.hex(), "text": data.decode("utf-8", "replace")[:300], "log_level": level_name})
+                continue
+            finally:
+                hlog.setLevel(logging.CRITICAL)
+                logging.getLogger("mopidy").setLevel(logging.WARNING)
+            if level_name == "debug":
+                quiet = {t: (w, f, l) for t, (w, f, l) in runs}
+                for t, obs in per_level:
+                    if t in quiet and quiet[t] != obs:
+                        chk.monitor_failure("no_exception", {"exc": "transport", "cause": "depends_on_log_level"},
+                                            f"the {t} answer differs when DEBUG logging is enabled for mopidy.http.handlers",
+                                            {"table": tbl_idx, "hex": data.hex(), "text": data.decode("utf-8", "replace")[:300], "transport": t})
+                per_level = [(t + "@debug", obs) for t, obs in per_level]
+            runs += per_level
         for transport, (written, failed, log) in runs:
             case = {"table": tbl_idx, "hex": data.hex(), "text": data.decode("utf-8", "replace")[:300], "transport": transport}
             chk.count(1, nontrivial_key=(transport, data) if data and not utf8_ok or (parsed_ok and isinstance(parsed, dict | list)) else None)
@@ -1005,6 +1046,7 @@ def handler_stage(chk, jsonrpc):
                     chk.monitor_failure("response_parses", {}, "handler response is not JSON", case)
             g_in = f"(Parsed {g_json(parsed)})" if parsed_ok else "ParseFail"
             rows.append((case, f"(T{tbl_idx}, {vlib.g_bool(not data)}, {vlib.g_bool(utf8_ok)}, {g_in}, {g_out}, {g_log(log)})"))
+    hlog.propagate = saved_propagate
     header = HEADER + "".join(f"Definition T{i} : mounts := {g_table(i)}.\n" for i in range(len(TABLE_SPECS)))
     shards = [rows[i: i + 500] for i in range(0, len(rows), 500)]
     results = rc.run_shards(vlib, AREA, header, "ep_case", [[r[1] for r in s] for s in shards],
